@@ -38,9 +38,9 @@ pub fn run_doc(sc: &Value) -> Value {
         Err(e) => json!({"outcome":"err","message":e.to_string()}),
         Ok(w) => {
             let variant = match &w { StatementWrapper::Naive(_) => "Naive", StatementWrapper::V0_1(_) => "V0_1" };
-            let back = serde_json::to_value(&w).unwrap();
+            let back = match serde_json::to_value(&w) { Ok(b) => b, Err(_) => return json!({"outcome": format!("ok:{}", variant), "serialises": false, "reserialised_equal": false}) };
             let back = if back.get("V0_1").is_some() { back["V0_1"].clone() } else if back.get("Naive").is_some() { back["Naive"].clone() } else { back };
-            json!({"outcome": format!("ok:{}", variant), "reserialised_equal": back == doc})
+            json!({"outcome": format!("ok:{}", variant), "serialises": true, "reserialised_equal": back == doc})
         }
     }
 }
